@@ -39,6 +39,7 @@ CFG = witness.Cfg(case_vary=True, nth=False, names=NAMES, p_logical=0.15, miss=0
 
 def as_flavour(recipe, flavour):
     r = copy.deepcopy(recipe)
+    want_detach = bool(recipe.get('detach_xml')) and flavour in ('xhtml', 'lxml-xml', 'xml-api')
     r['detach'] = None
     if flavour == 'xhtml':
         r['kind'] = 'lxml-xml'
@@ -53,6 +54,8 @@ def as_flavour(recipe, flavour):
             {'k': 'e', 'name': 'body', 'ns': None, 'prefix': None, 'attrs': [], 'ch': top}]}
         setns(body)
         r['top'] = [body]
+        if want_detach:
+            r['detach'] = [0]     # the root element taken out of its BeautifulSoup object: still an XML tree
         return r
     r['kind'] = flavour
     if flavour == 'lxml-xml':
@@ -69,6 +72,8 @@ def as_flavour(recipe, flavour):
                     joincls(c)
         for n in r['top']:
             joincls(n)
+    if want_detach:
+        r['detach'] = [0]
     return r
 
 
@@ -100,6 +105,8 @@ def gen_case(ch, tier):
     for node in recipe['top']:
         number(node)
     base = ch.pick(FLAVOURS)
+    if ch.p(0.25):
+        recipe['detach_xml'] = True   # XML flavours are queried on the extracted root element (no BeautifulSoup object on top)
     extra = []
     for _ in range(ch.i(0, 2)):
         extra.append([ch.i(0, max(0, n[0] - 1)), ch.pick(('data-Role', 'viewBox', 'TITLE', 'Lang', 'dataX')), ch.pick(ATTR_VALUES)])
